@@ -30,10 +30,12 @@ ENCODED = [conventions.StorageKeyFormingConvention.make_v1_key, conventions.Stor
 META = {
     'bounds': 'H1: ids over [aZ0_./<>-] of length 1..5 with the name limit scaled to 4 (v2) / whole-key limit 9 (v1), i.e. both the '
               'uncut and the cut+suffix branches; suffix = any string of the lemma shape (concrete representative "-Ab", "-x.y-Z9"). '
-              'H1b: all 2^32 digests. H2: ids from a concrete list (short, 70 and 300 chars, sub-handler paths, field suffixes, '
+              'H1b: all 2^32 digests. H1c (E4, smt_names/smt_distinct): the REAL limits 63/253, ids of 1..300 characters over '
+              '[A-Za-z0-9_./<>-] starting and ending alphanumeric, prefixes of 1..189 characters (v2) / 1..54 (v1; longer ones: known finding F14), '
+              'formula generated from the AST of make_v1_key/make_v2_key/make_safe_key, strings as (length, character function), z3 LIA+UF. H2: ids from a concrete list (short, 70 and 300 chars, sub-handler paths, field suffixes, '
               'unicode-free), records with symbolic field presence and messages from {ascii, quotes, unicode, empty}, prefixes '
               '{kopf.zalando.org, my.op.io}, v1 on/off, ReplicaSet-of-Deployment yes/no.',
-    'outside': 'ids at the real limits 63/253 for H1 (scaled instead; the code is length-generic), blake2b collision-freeness (assumed '
+    'outside': 'CrossHair H1 runs at scaled limits (the real ones are decided by H1c), blake2b collision-freeness (assumed '
                'for distinctness of long ids), ids whose first/last character is not alphanumeric (known finding F4)',
     'stubs': ['make_suffix -> representative of the lemma shape (H1)'],
     'assumptions': ['blake2b(digest_size=4) distinguishes the long ids in question'],
